@@ -25,10 +25,11 @@ pub mod lef21 {
         pub fn fract(&self) -> (r: LefDecimal) ensures (r.m == 0) == ((self.m as int) % pow10(self.s as nat) == 0) { unimplemented!() }
         #[verifier::external_body]
         pub fn is_zero(&self) -> (r: bool) ensures r == (self.m == 0) { unimplemented!() }
-        /// integral part, scale 0
+        /// integral part (rounded toward zero), scale 0
         #[verifier::external_body]
         pub fn trunc(&self) -> (r: LefDecimal)
             ensures r.s == 0, (self.m as int) % pow10(self.s as nat) == 0 ==> r.m as int == (self.m as int) / pow10(self.s as nat),
+                r.m as int == (if self.m >= 0 { (self.m as int) / pow10(self.s as nat) } else { -((-(self.m as int)) / pow10(self.s as nat)) }),
         { unimplemented!() }
         /// the digits without the decimal point
         #[verifier::external_body]
@@ -41,6 +42,20 @@ pub mod lef21 {
     /// opaque: import_units ignores its argument
     pub struct LefUnits { }
 }
+// model of Decimal's comparison operators: comparison of the values m / 10^s
+impl vstd::std_specs::cmp::PartialEqSpecImpl for lef21::LefDecimal {
+    open spec fn obeys_eq_spec() -> bool { true }
+    open spec fn eq_spec(&self, other: &Self) -> bool { self.m * pow10(other.s as nat) == other.m * pow10(self.s as nat) }
+}
+impl PartialEq for lef21::LefDecimal { #[verifier::external_body] fn eq(&self, other: &Self) -> bool { unimplemented!() } }
+impl vstd::std_specs::cmp::PartialOrdSpecImpl for lef21::LefDecimal {
+    open spec fn obeys_partial_cmp_spec() -> bool { true }
+    open spec fn partial_cmp_spec(&self, other: &Self) -> Option<core::cmp::Ordering> {
+        let (a, b) = (self.m * pow10(other.s as nat), other.m * pow10(self.s as nat));
+        if a < b { Some(core::cmp::Ordering::Less) } else if a > b { Some(core::cmp::Ordering::Greater) } else { Some(core::cmp::Ordering::Equal) }
+    }
+}
+impl PartialOrd for lef21::LefDecimal { #[verifier::external_body] fn partial_cmp(&self, other: &Self) -> Option<core::cmp::Ordering> { unimplemented!() } }
 impl vstd::std_specs::ops::MulSpecImpl<lef21::LefDecimal> for &lef21::LefDecimal {
     open spec fn obeys_mul_spec() -> bool { true }
     // rust_decimal multiplies exactly as long as the product fits 96 bits and the scales add up to <= 28
